@@ -392,6 +392,11 @@ RAW_UNITS = [
     ('int f(void) { static const char *p = __func__; return p[0]; }\n', {}, 'func-name-address-constant-undefined'),
 ]
 
+# names longer than any fixed buffer that differ only in their last character: each keeps its own symbol / label
+_LN = 'n' + 'abcdefghij' * 27
+RAW_UNITS.append(('int %sA = 1, %sB = 2; int use(void) { static int %sC = 3; static int %sD = 4; if (%sA) goto %sE; return %sC; %sE: if (%sB) goto %sF; return %sD; %sF: return 0; }\n'
+                  % ((_LN,) * 12), {_LN + 'A': (4, True), _LN + 'B': (4, True)}, 'raw-unit', {'refs': [_LN + 'A', _LN + 'B']}))
+
 # units that must be rejected: the address of a thread-local object is not an address constant (6.6p9: "an object of static
 # storage duration"), whatever the initialised object is (seeded change C09-advb-09-2 emitted `l $t` without `thread`)
 RAW_REJECT = [
